@@ -21,7 +21,8 @@ class C18(Prop):
             "subprocess; oracle: sha256 of all output files equal; one evaluation = one export; non-trivial = the reference "
             "export contains packets; distinct = spec digests")
     reach = ["hashseed_variants", "cwd_env_variants", "twice_in_process", "after_other_world", "cli_subprocess",
-             "quic_world", "quic_zero_len_cid", "output_nonempty", "output_path_reused"]
+             "quic_world", "quic_zero_len_cid", "output_nonempty", "output_path_reused",
+             "sslkeylogfile_in_environment_without_s"]
 
     def plan(self, tier):
         p = super().plan(tier)
@@ -51,6 +52,9 @@ class C18(Prop):
         spec["other"] = other
         if R.chance(50):
             spec["keychan"] = {"mode": "file", "early_lines": R.bits(30)}
+        elif R.chance(60):
+            # the secrets travel inside the capture (decryption secrets blocks), no -s option
+            spec["keychan"] = {"mode": "dsb", "perm_seed": R.bits(30)}
         spec["cli_sub"] = (idx % 8 == 0)
         spec["hs2"] = [R.range(4, 1 << 31), R.range(4, 1 << 31)]
         return spec
@@ -96,6 +100,22 @@ class C18(Prop):
             out.exports += 1
             out.count("reach:cwd_env_variants")
             judge("env-cwd-%d" % i, r)
+        if ex["keylog"] is None:
+            # no -s: the secrets are those of the capture, whatever key-log variable the user's shell exports
+            import copy, os
+            s2 = copy.deepcopy(spec)
+            s2["keychan"] = {"mode": "file"}
+            lines = world.expand(s2)["keylog"].decode().split("\n")
+            stale = "\n".join(" ".join(p[:2] + [p[2][::-1]]) if len(p) == 3 else l for l, p in ((l, l.split(" ")) for l in lines))
+            kp = os.path.join(lane.sut(0).base, "shell-keys.log")
+            with open(kp, "w") as f:
+                f.write(stale)
+            for name, val in (("missing-file", "/nonexistent/sslkeys.log"), ("stale-lines", kp)):
+                r = lane.sut(0).run(ex["capture"], None, ex["argv"], env={"SSLKEYLOGFILE": val, "HOME": "/root"})[0]
+                out.exports += 1
+                out.count("reach:sslkeylogfile_in_environment_without_s")
+                judge("env-SSLKEYLOGFILE-" + name, r)
+            os.unlink(kp)
         # the output path already holds a (longer) file from an earlier export
         r = lane.sut(0).run(ex["capture"], ex["keylog"], ex["argv"], pre_out=ref.out + b"\x00" * 64 + ref.out[:500])[0]
         out.exports += 1
